@@ -83,6 +83,22 @@ Definition b2s (b : bool) : str := if b then [49] else [48].
    v<id> = the property's view of the real output equals its view of the model's output *)
 Definition is_ok_status (j : jv) : bool := match j with JStr st => sq "ok" st | _ => false end.
 
+Definition module_items (m : node) : list node :=
+  match m with
+  | NObj [Field _ _; Field _ (NArr items); _] => items
+  | _ => []
+  end.
+
+Fixpoint subseq_items (xs ys : list node) {struct ys} : bool :=
+  match xs with
+  | [] => true
+  | x :: xr =>
+      match ys with
+      | [] => false
+      | y :: yr => if jv_eqb (enc x) (enc y) then subseq_items xr yr else subseq_items xs yr
+      end
+  end.
+
 Definition extras (c : jv) (model_out : jv) : list (str * str) :=
   let E := env_of c in
   let real_j := jfield_d "output" c in
@@ -107,6 +123,10 @@ Definition extras (c : jv) (model_out : jv) : list (str * str) :=
     (* C09: a JSX-free module without resolveType comes back unchanged; second pass = first *)
     (s_ "oC09frame", b2s (if jsx_free input && negb (o_resolve_type (e_opts E))
                           then jv_eqb real_j (jfield_d "input" c) else true));
+    (* C09: every JSX-free top-level statement of the input appears unchanged, in order, in the
+       output (resolveType may touch defineComponent statements: only decided with it off) *)
+    (s_ "oC09items", b2s (if o_resolve_type (e_opts E) then true
+                          else subseq_items (filter jsx_free (module_items input)) (module_items real)));
     (s_ "jsxfree_in", b2s (jsx_free input));
     (s_ "same_in", b2s (jv_eqb real_j (jfield_d "input" c)));
     (s_ "oC09idem", b2s (match rdiags with
